@@ -212,6 +212,8 @@ pub struct Model<'a> {
     pub report: ModelReport,
     step_cap: u64,
     pending_errors_used: HashMap<(StmtId, u32), usize>,
+    /// the simple statement executed last: (id, execution count, is a file statement)
+    last_simple: Option<(StmtId, u32, bool)>,
 }
 
 const STEP_CAP: u64 = 20_000;
@@ -285,6 +287,7 @@ impl<'a> Model<'a> {
             report: ModelReport::default(),
             step_cap: STEP_CAP,
             pending_errors_used: HashMap::new(),
+            last_simple: None,
         }
     }
 
@@ -401,14 +404,19 @@ impl<'a> Model<'a> {
                 }
                 Ok(())
             }
-            other => self.diverge(
-                Class::ControlFlow,
-                None,
-                format!(
-                    "model: normal termination; implementation: {}",
-                    other.short()
-                ),
-            ),
+            other => {
+                if let Some(d) = self.unexpected_error_of_last() {
+                    return Err(Stop::Diverged(d));
+                }
+                self.diverge(
+                    Class::ControlFlow,
+                    None,
+                    format!(
+                        "model: normal termination; implementation: {}",
+                        other.short()
+                    ),
+                )
+            }
         }
     }
 
@@ -716,6 +724,26 @@ impl<'a> Model<'a> {
     // statements
     // ------------------------------------------------------------------
 
+    /// If the statement executed last raised an error the model did not expect, that is the
+    /// divergence (and its class follows from the kind of statement).
+    fn unexpected_error_of_last(&self) -> Option<Divergence> {
+        let (id, occ, is_file) = self.last_simple?;
+        let used = *self.pending_errors_used.get(&(id, occ)).unwrap_or(&0);
+        let (code, row, col) = *self.errors.get(&(id, occ))?.get(used)?;
+        Some(Divergence {
+            class: if is_file {
+                Class::FileProtocol
+            } else {
+                Class::ControlFlow
+            },
+            stmt: Some(id),
+            detail: format!(
+                "statement {}#{} must succeed; the implementation raised error {} at {}:{}",
+                id, occ, code, row, col
+            ),
+        })
+    }
+
     fn begin_simple(&mut self, s: &Stmt) -> R<u32> {
         self.report.statements += 1;
         if self.report.statements > self.step_cap {
@@ -734,6 +762,9 @@ impl<'a> Model<'a> {
             }
             Some((id, o)) => {
                 let (id, o) = (*id, *o);
+                if let Some(d) = self.unexpected_error_of_last() {
+                    return Err(Stop::Diverged(d));
+                }
                 self.diverge(
                     Class::ControlFlow,
                     Some(s.id),
@@ -755,6 +786,9 @@ impl<'a> Model<'a> {
                 }
                 if matches!(self.outcome, Outcome::Budget) {
                     return Err(Stop::Early("run exhausted its budget".into()));
+                }
+                if let Some(d) = self.unexpected_error_of_last() {
+                    return Err(Stop::Diverged(d));
                 }
                 self.diverge(
                     Class::ControlFlow,
@@ -965,6 +999,26 @@ impl<'a> Model<'a> {
     fn exec_simple(&mut self, s: &'a Stmt) -> R<Result<Flow, Failure>> {
         let occ = self.begin_simple(s)?;
         let key = (s.id, occ);
+        let is_file = matches!(
+            &s.kind,
+            StmtKind::Open { .. }
+                | StmtKind::Close(_)
+                | StmtKind::InputFile { .. }
+                | StmtKind::LineInputFile { .. }
+                | StmtKind::InputCon { .. }
+                | StmtKind::LineInputCon { .. }
+                | StmtKind::Kill(_)
+                | StmtKind::NameAs(..)
+                | StmtKind::Field { .. }
+                | StmtKind::Lset { .. }
+                | StmtKind::Put { .. }
+                | StmtKind::Get { .. }
+                | StmtKind::Print {
+                    dev: Dev::File(_),
+                    ..
+                }
+        );
+        self.last_simple = Some((s.id, occ, is_file));
         match &s.kind {
             StmtKind::Print { dev, items, using } => self.exec_print(s, key, *dev, items, using),
             StmtKind::Assign { var, expr } => {
